@@ -229,6 +229,18 @@ def run(prop, tier, seed, out):
             if rejected and not out.violations:
                 out.notes.append("MODEL-DRIFT: %d recorded executions are not behaviours of Dispatch.tla although every per-execution oracle of %s held: %s"
                                  % (len(rejected), prop, rejected[:5]))
+            # ---- registry half of C01 / C02: every state of the bounded Registry model is rebuilt on a real Broker and a Send per
+            # type must traverse exactly the registered pipelines (C01) with the Status / threshold semantics of the model (C02)
+            if prop in ("C01", "C02"):
+                import fam_registry
+                for tag, r, g in fam_registry.light_binding(vh, scr, seed, quick):
+                    out.add_tlc(g)
+                    accepted_n += r["edges"]
+                    for m in r["mismatches"] or []:
+                        if not m.get("drift") and prop in m["props"]:
+                            out.violation("registry replay %s: %s: expected %s, real broker %s" % (tag, m["what"], json.dumps(m["expected"])[:200], json.dumps(m["observed"])[:200]), m)
+                    if r["by_prop"].get(prop, 0) and not out.violations:
+                        out.violation("registry replay %s: %d mismatches attributed to %s" % (tag, r["by_prop"][prop], prop), (r["mismatches"] or [])[:3])
             # ---- the design checks
             for f in futs:
                 name, r = f.result()
